@@ -41,7 +41,8 @@
    every classified input really fails.  The rows are replayed into the real builders.           *)
 EXTENDS Integers, Sequences, FiniteSets
 
-CONSTANTS ChanChars, MaxChan,     \* channel names: every sequence over ChanChars of length 0..MaxChan
+CONSTANTS ChanChars, MaxChan,     \* channel names: every sequence over ChanChars of length 1..MaxChan (the
+                                  \* empty string is not a channel name: every client command rejects it)
           Modes                   \* subset of {"plain", "cluster", "sharded", "precomp"}
 
 LB == "{"
@@ -217,8 +218,8 @@ BadOps(m, p, ch, lists) ==
 
 \* channel round trips (by engine)
 BadTrips(m, p, ch) ==
-     (IF BExtract(m, p, BMsgChan(m, p, ch)) # ch \/ ch = <<>> THEN {"broker.extractChannel"} ELSE {})
-  \cup (IF MapApplies(m) /\ (MExtract(m, p, MMsgChan(m, p, ch)) # ch \/ ch = <<>>) THEN {"map.extractChannel"} ELSE {})
+     (IF BExtract(m, p, BMsgChan(m, p, ch)) # ch THEN {"broker.extractChannel"} ELSE {})
+  \cup (IF MapApplies(m) /\ MExtract(m, p, MMsgChan(m, p, ch)) # ch THEN {"map.extractChannel"} ELSE {})
 
 ---------------------------------------------------------------------------
 (* --- for which inputs is the design unsound? ---------------------------- *)
@@ -230,13 +231,13 @@ PrefixClass(p) ==
        IF c = 0 THEN "prefix-unclosed-brace"            \* the tag swallows the builder's infix
        ELSE IF c = o + 1 THEN "prefix-empty-braces"     \* "{}" first: the whole key is hashed
        ELSE "prefix-tag"                                \* a complete {tag} in the prefix: one slot for all
-ChanClass(ch) == IF ch = <<>> THEN "channel-empty" ELSE IF ch[1] = RB THEN "channel-starts-with-}" ELSE "ok"
+ChanClass(ch) == IF ch[1] = RB THEN "channel-starts-with-}" ELSE "ok"     \* "{" ++ "}..." : empty tag
 
 \* the classes; "sound" = the property must hold for every operation
 Class(m, p, ch) ==
-  IF ~IsCluster(m) THEN (IF ch = <<>> THEN "channel-empty" ELSE "sound")
+  IF ~IsCluster(m) THEN "sound"
   ELSE IF PrefixClass(p) \in {"prefix-unclosed-brace", "prefix-empty-braces"} THEN PrefixClass(p)
-  ELSE IF PrefixClass(p) = "prefix-tag" THEN (IF ch = <<>> THEN "channel-empty" ELSE "sound")
+  ELSE IF PrefixClass(p) = "prefix-tag" THEN "sound"
   ELSE IF ChanClass(ch) = "ok" THEN "sound"
   ELSE ChanClass(ch)      \* "{ch}" keys: broker in "cluster" mode, presence in every cluster mode
 
@@ -263,7 +264,7 @@ OpsRow(m, lists) == LET ops == Ops(m, lists) IN
 Seeds == {<<"seed", m, p, l>> : m \in Modes, p \in Prefixes, l \in BOOLEAN}
 Init == row \in Seeds
 Next == /\ row[1] = "seed"
-        /\ \/ \E n \in 0..MaxChan : \E ch \in [1..n -> ChanChars] : row' = MkRow(row[2], row[3], ch, row[4])
+        /\ \/ \E n \in 1..MaxChan : \E ch \in [1..n -> ChanChars] : row' = MkRow(row[2], row[3], ch, row[4])
            \/ row' = OpsRow(row[2], row[4])
 Spec == Init /\ [][Next]_vars
 
